@@ -81,9 +81,13 @@ FHolds(c, r) ==
 (* Named input pattern for known findings (DESIGN section 8): configurations
    outside the zone in which each solver's absolute EPSILON thresholds and its
    float cancellation are harmless.  A rejected record inside the pattern is
-   tagged ZONE_Extreme; outside it the rejection is an ordinary violation. *)
+   tagged ZONE_Extreme; outside it the rejection is an ordinary violation.
+   Jolt: measured on 150,000 random real configurations of the unchanged library, every failure has an aspect ratio
+   of at least 1e7 or is a 4-point configuration with a smallest extent below 1e-3 (the absolute EPSILON of the
+   tetrahedron plane tests); 1-3 points with aspect below 1e7 never failed, whatever their size (the zone used to be
+   aspect >= 1e5 or extent < 1e-3 for any k, which hid seed C18-7: a needle triangle of aspect 1e5 .. 1e7). *)
 Extreme(r) ==
-  IF r.solver = "jolt"    THEN r.aspDec >= 5 \/ r.featDec < -3
+  IF r.solver = "jolt"    THEN r.aspDec >= 7 \/ (r.k = 4 /\ r.featDec < -3)
   ELSE                         r.aspDec >= 2 \/ r.scaleDec < -1
 FFailing(r) ==
   LET f == {c \in Range(FloatClauses) : ~FHolds(c, r)}
